@@ -1,6 +1,10 @@
 """C17 — fast imzML parser == XML parser: ImzML.from_file(path, use_fast_parse=True) vs ImzML.from_file(path)
 field by field (and through the extracted images), and both against PewModel/FastParse.lean
-(`fastParse (render d)` = the nested line loops over abstract lines, `xmlView d` = the tree queries)."""
+(`fastParse (render d)` = the nested line loops over the abstract lines of the raw text, `xmlView (xmlDoc d)` = the tree queries
+over the document with entity / character references decoded, `callPositions` = the exact file positions handed to the
+progress callback, `imageSizeOf` / `ticImageOf` / `massImageOf` = the images as a function of the parsed model)."""
+import copy
+import locale
 import math
 import random
 import sys
@@ -28,6 +32,15 @@ NOISE_VALUES = [None, None, "", "abc", "1.5e+06", "x y", "-3", "0", "true", "000
 # large documents ("any number of spectra"): probability per generated case, and the range of the spectrum count
 LARGE_P = {"quick": 0.0004, "thorough": 0.0006}
 LARGE_MIN, LARGE_MAX = 1000, 3000
+# layout noise outside what either parser reads: non-ASCII text in the NAME attributes (2- and 3-byte UTF-8 sequences, so that
+# byte offsets and character offsets differ); only used when the locale encoding `open(path, "r")` decodes with is UTF-8
+NAMES_NON_ASCII = ["pixel size (\u00b5m)", "dur\u00e9e", "\u4f4d\u7f6e x", "Gr\u00f6\u00dfe", "\u00b5", "m/z \u2013 array"]
+NON_ASCII_P = 0.08
+# hypothesis-excluded cases (entity / character references in a read value, a ref or a group id): share of the generated cases
+ENTITY_P = 0.04
+ENTITY_KINDS = ["value", "value", "ref", "group-id"]
+UTF8_LOCALE = locale.getpreferredencoding(False).lower().replace("-", "").replace("_", "") == "utf8"
+MASSES, MASS_WIDTH = [100.0, 125.0], 16.0
 SECT_TAGS = ["fileDescription", "softwareList", "instrumentConfigurationList", "dataProcessingList", "cvList", "sampleList"]
 
 
@@ -53,29 +66,71 @@ def canon_imz(imz):
 
 
 def canon_model(res):
-    """driver result -> the same canonical form (int()/float() of the selected attribute texts)"""
+    """driver result -> the same canonical form (int()/float() of the selected attribute texts; a text int()/float() reject
+    is the ValueError both parsers raise there)"""
     if res is None:
         return {"raises": "no-model"}
     if "raises" in res:
         return {"raises": "Warning" if res["raises"] == "UserWarning" else res["raises"]}
     m = res["ok"] if "ok" in res else res
-    spectra = {}
-    for s in m["spectra"]:
-        x, y = int(s["x"]), int(s["y"])
-        offsets, lengths = {}, {}
-        for k, o, l in s["arrays"]:
-            offsets[k] = int(o)
-            lengths[k] = int(l)
-        spectra[f"{x},{y}"] = {"pos": [x, y], "tic": None if s["tic"] is None else ftok(float(s["tic"])),
-                               "offsets": offsets, "lengths": lengths}
-    grp = lambda g: {"id": g["id"], "dtype": DTYPE_NAME[g["dtype"]], "external": g["external"]}
-    return {"size": None if m["size"] is None else [int(m["size"][0]), int(m["size"][1])],
-            "pixel": [ftok(float(m["pixel"][0])), ftok(float(m["pixel"][1]))],
-            "mz": grp(m["mz"]), "inten": grp(m["inten"]), "spectra": spectra}
+    try:
+        spectra = {}
+        for s in m["spectra"]:
+            x, y = int(s["x"]), int(s["y"])
+            offsets, lengths = {}, {}
+            for k, o, l in s["arrays"]:
+                offsets[k] = int(o)
+                lengths[k] = int(l)
+            spectra[f"{x},{y}"] = {"pos": [x, y], "tic": None if s["tic"] is None else ftok(float(s["tic"])),
+                                   "offsets": offsets, "lengths": lengths}
+        grp = lambda g: {"id": g["id"], "dtype": DTYPE_NAME[g["dtype"]], "external": g["external"]}
+        return {"size": None if m["size"] is None else [int(m["size"][0]), int(m["size"][1])],
+                "pixel": [ftok(float(m["pixel"][0])), ftok(float(m["pixel"][1]))],
+                "mz": grp(m["mz"]), "inten": grp(m["inten"]), "spectra": spectra}
+    except ValueError:
+        return {"raises": "ValueError"}
+
+
+def first_conversion_failure(m):
+    """for a model whose texts are raw (entity cases): where the fast parser's int()/float() fail first, in the order the
+    code converts: the scan settings (before any spectrum: -1), else the index of the first spectrum with a text that does not
+    convert (its arrays' offsets/lengths, then position and TIC); None when every text converts"""
+    def bad(f, t):
+        try:
+            f(t)
+            return False
+        except ValueError:
+            return True
+
+    if (m["size"] is not None and (bad(int, m["size"][0]) or bad(int, m["size"][1]))) or bad(float, m["pixel"][0]) or bad(float, m["pixel"][1]):
+        return -1
+    for j, s in enumerate(m["spectra"]):
+        if any(bad(int, o) or bad(int, l) for _, o, l in s["arrays"]) or bad(int, s["x"]) or bad(int, s["y"]) \
+                or (s["tic"] is not None and bad(float, s["tic"])):
+            return j
+    return None
 
 
 def canon_exc(e):
     return {"raises": "Warning" if isinstance(e, Warning) else type(e).__name__}
+
+
+def rat_cell(v):
+    return core.rat(float(v)) if math.isfinite(float(v)) else repr(float(v))
+
+
+def exact_images(m):
+    """image size, TIC image and mass-window image of an ImzML object as exact rationals (NaN pixel = None)"""
+    size = m.image_size
+    tic = np.asarray(m.extract_tic(), dtype=np.float64)
+    mass = np.asarray(m.extract_masses(np.array(MASSES), mass_width_mz=MASS_WIDTH))
+    return {"size": [int(size[0]), int(size[1])],
+            "tic": [[None if math.isnan(v) else rat_cell(v) for v in row] for row in tic],
+            "mass": [[None if np.isnan(px).all() else [rat_cell(v) for v in px] for px in row] for row in mass]}
+
+
+def has_non_ascii(doc):
+    return not gen_imzml.render(doc).isascii()
 
 
 def img_tokens(a):
@@ -91,20 +146,39 @@ class C17(Prop):
             "order incl. repeated positions and positions/offsets with many digits, TIC absent or written as integer/decimal/"
             "exponent/signed text, image size present or absent, 1..3 scanSettings, extra param groups, extra cvParam/userParam/"
             "ref lines in every element (any accession the enclosing parser does not read), noise sections that repeat the read "
-            "accessions, five cvParam attribute orders, four indentations, trailing blanks, array groups in either order, "
-            "32/64-bit and integer type declarations; the progress callback returns False at a random invocation or never; "
+            "accessions, five cvParam attribute orders, four indentations, trailing blanks, LF and CRLF line ends, array groups in either "
+            "order, 32/64-bit and integer type declarations; non-ASCII UTF-8 text in cvParam/userParam name attributes (feature "
+            "`non-ascii-text`, about 8 % of the documents, only under a UTF-8 locale); the progress callback returns False at a random "
+            "invocation or never, and the file positions it receives are compared with `callPositions` exactly; "
             "large documents (feature `large-document`: 1000..3000 spectra of 1-2 peaks over a 30..90 pixel wide image in raster/column/"
-            "reverse/shuffled order, light per-spectrum noise, so that one <spectrum> block is far below 1/1024 of the file) with the "
-            "callback False at the first, a middle, the last, a random spectrum or never: one fixed document x these five callbacks in "
-            "every run, plus about 1 in 1700 (thorough; 1 in 2500 quick) generated cases. "
-            "non-trivial = any of these layout-noise classes; distinct by canonical case hash")
+            "reverse/shuffled order, light per-spectrum noise, so that one <spectrum> block is far below 1/1024 of the file; half of them "
+            "with CRLF line ends) with the callback False at the first, a middle, the last, a random spectrum or never: one fixed document "
+            "x these five callbacks plus three CRLF / non-ASCII variants in every run, plus about 1 in 1700 (thorough; 1 in 2500 quick) "
+            "generated cases. For documents with binary data the image size, the TIC image and a two-window mass image of both parsers' "
+            "objects are compared exactly with the driver's `imageSizeOf`/`ticImageOf`/`massImageOf` of the model (integer intensities, "
+            "dyadic m/z, finite TIC texts). About 4 % of the cases are hypothesis-excluded (`entity:value`, `entity:ref`, "
+            "`entity:group-id`: a character reference such as `1&#48;`, `mz&#65;rray`, `&#x31;` in a read value, a ref or a group id; "
+            "`TextOk` fails): there only impl = model is demanded, fast parser against `fastParse (render d)` on the raw text, XML parser "
+            "against `xmlView (xmlDoc d)`. non-trivial = any of these layout-noise classes; distinct by canonical case hash")
     trusted = ["xml.etree.ElementTree and `re` behave as documented; the abstract-line tokenisation of the rendered text is validated "
-               "only by this differential run (harness renders text, driver renders abstract lines from the same description)",
-               "int()/float() of the selected attribute text is applied by the harness to the model's output (both parsers call the same functions)"]
+               "only by this differential run (harness renders text, driver renders abstract lines from the same description; the "
+               "harness checks that the text lines at the driver's `callLine` indices are the <spectrumList>/<spectrum> lines)",
+               "int()/float() of the selected attribute text is applied by the harness to the model's output (both parsers call the same functions)",
+               "the tables realising `Bin` (text -> int()/float() value, (group id, offset, length) -> numbers decoded from the .ibd with "
+               "the group's declared type) are built by the harness with int(), float() and numpy.frombuffer",
+               "hypothesis-excluded entity cases: the model keeps numbers as text, so WHERE int()/float() of a raw text such as `1&#48;` "
+               "raises (scan settings: before any callback; spectrum j: after invocation j) is worked out by the harness from the model's "
+               "texts in the order the code converts them"]
     assumptions = ["at least one <spectrum> (with none the fast parser treats <spectrumList> as a spectrum and raises KeyError)",
-                   "a TIC cvParam carries a value attribute; attribute texts contain no quote, '&', '<' or the text 'value='",
+                   "a TIC cvParam carries a value attribute; attribute texts contain no quote, '<' or the text 'value=' (and, inside the "
+                   "layout, no '&': `TextOk`)",
                    "the `compressed` flag is not compared (the property does not list it; the two parsers always disagree on it)",
-                   "callback positions are compared for count and order only"]
+                   "file positions: `fast_parse_imzml` opens the file in text mode with the locale encoding; for UTF-8 (and any "
+                   "ASCII-compatible single-byte encoding on ASCII content) the tell() cookie at a line end equals the byte offset, for LF "
+                   "and CRLF line ends; the line lengths given to the model are byte lengths of the UTF-8 text. Non-ASCII text is only "
+                   "generated (and only kept in a replayed case) when locale.getpreferredencoding(False) is UTF-8",
+                   "the exact images are compared only when every TIC text is finite, intensities are integers and m/z values dyadic "
+                   "(sums exact in float32/float64) and positions lie inside the image; otherwise only fast image == XML image"]
 
     # ------------------------------------------------------------------ generation
     def noise(self, rng, avoid, n=None, refs_ok=True):
@@ -147,8 +221,19 @@ class C17(Prop):
         fork = random.Random()
         fork.setstate(rng.getstate())
         if fork.random() < LARGE_P[tier]:
-            return self.gen_doc(fork, tier, large=fork.randint(LARGE_MIN, LARGE_MAX))
-        return self.gen_doc(rng, tier)
+            return self.decorate(self.gen_doc(fork, tier, large=fork.randint(LARGE_MIN, LARGE_MAX)), fork)
+        return self.decorate(self.gen_doc(rng, tier), rng)
+
+    def decorate(self, case, rng):
+        """drawn after the document, so the document classes keep their distribution: non-ASCII names (in-layout noise) and
+        the hypothesis-excluded entity classes"""
+        r = rng.random()
+        if r < NON_ASCII_P:
+            if UTF8_LOCALE:
+                case["non_ascii"] = rng.randint(0, 10 ** 6)
+        elif r < NON_ASCII_P + ENTITY_P and len(case["doc"]["spectra"]) < LARGE_MIN:
+            case["entity"] = {"kind": rng.choice(ENTITY_KINDS), "pick": rng.randint(0, 10 ** 6), "form": rng.choice(["dec", "hex", "dec0"])}
+        return case
 
     def gen_doc(self, rng, tier, large=None):
         """`large` = number of spectra of a large document (1000+ spectra of 1-2 peaks over a large image, light per-spectrum
@@ -251,8 +336,11 @@ class C17(Prop):
             abort = rng.choice([None, 0, nspec // 2, nspec - 1, rng.randint(0, nspec - 1)])
         elif rng.random() < 0.4:
             abort = rng.choice([0, nspec - 1, rng.randint(0, nspec - 1)])
-        return {"doc": {"decl": rng.random() < 0.8, "indent": rng.choice(["", "  ", "\t", "    ", " "]),
-                        "trail": rng.choice(["", "", "", " ", "\t ", "\r"]),
+        indent, trail = rng.choice(["", "  ", "\t", "    ", " "]), rng.choice(["", "", "", " ", "\t ", "\r"])
+        if large is not None and rng.random() < 0.5:     # half of the large documents use CRLF line ends
+            trail = rng.choice(["\r", "\r", " \r"])
+        return {"doc": {"decl": rng.random() < 0.8, "indent": indent,
+                        "trail": trail,
                         "pre": sects(), "mid1": sects(), "mid2": sects(), "post": sects(),
                         "settings_first": rng.random() < 0.3, "groups": groups, "settings": settings, "spectra": spectra},
                 "data": data, "mzdt": mzdt, "itdt": itdt, "abort": abort, "pad": rng.randint(0, 10 ** 6)}
@@ -274,10 +362,92 @@ class C17(Prop):
         c = self.gen_doc(random.Random(1017), tier, large=2048)
         for ab in (None, 0, 1024, 2047, random.Random(1018).randint(1, 2046)):
             yield {**c, "abort": ab}
+        # the same document with CRLF line ends (tell() across \r|\n chunk boundaries), and with non-ASCII names
+        crlf = {**c, "doc": {**c["doc"], "trail": "\r"}}
+        yield {**crlf, "abort": None}
+        yield {**crlf, "abort": random.Random(1019).randint(1, 2046), **({"non_ascii": 7} if UTF8_LOCALE else {})}
+        yield {**c, "abort": 1500, **({"non_ascii": 11} if UTF8_LOCALE else {})}
+        # small documents: non-ASCII names with LF and CRLF, each entity class in both forms
+        for k, tr in enumerate(("", "\r", "\t ")):
+            c2 = self.gen_doc(random.Random(300 + k), tier)
+            yield {**c2, "doc": {**c2["doc"], "trail": tr}, **({"non_ascii": k} if UTF8_LOCALE else {})}
+        for k, kind in enumerate(["value", "ref", "group-id"] * 4):
+            c2 = self.gen_doc(random.Random(400 + k), tier)
+            yield {**c2, "entity": {"kind": kind, "pick": 31 * k + 5, "form": ["dec", "hex", "dec0"][k % 3]},
+                   "abort": [None, 0, len(c2["doc"]["spectra"]) - 1][k % 3]}
 
     # ------------------------------------------------------------------ evaluation
+    @staticmethod
+    def item_lists(doc):
+        for k in ("pre", "mid1", "mid2", "post"):
+            for sct in doc[k]:
+                yield sct["items"]
+        for g in doc["groups"]:
+            yield g["items"]
+        for st in doc["settings"]:
+            yield st["items"]
+        for sp in doc["spectra"]:
+            yield sp["items"]
+            yield sp["scanlist"]
+            yield from sp["scans"]
+            for a in sp["arrays"]:
+                yield a["items"]
+            yield sp["tail"]
+
+    def with_non_ascii(self, doc, seed):
+        """non-ASCII names on about a third of the cvParam/userParam lines (at least one)"""
+        doc = copy.deepcopy(doc)
+        rng = random.Random(seed)
+        named = [it for items in self.item_lists(doc) for it in items if it["t"] in ("cv", "user")]
+        hit = [it for it in named if rng.random() < 0.3] or named[:1]
+        for it in hit:
+            it["name"] = rng.choice(NAMES_NON_ASCII)
+        return doc
+
+    def with_entity(self, doc, ent):
+        """one character of a read value / a ref / a group id written as a character reference; returns (doc, feature or None)"""
+        doc = copy.deepcopy(doc)
+        kind = ent["kind"]
+        slots = []          # (dict, key)
+        if kind == "value":
+            st0 = [it for it in doc["settings"][0]["items"] if it["t"] == "cv"]
+            both = all(sum(1 for it in st0 if it["acc"] == a) == 1 for a in (ACC["SIZE_X"], ACC["SIZE_Y"]))
+            for it in st0:
+                if it["acc"] in (ACC["PIXEL_X"], ACC["PIXEL_Y"]) or (both and it["acc"] in (ACC["SIZE_X"], ACC["SIZE_Y"])):
+                    slots.append((it, "value"))
+            for sp in doc["spectra"]:
+                for it in sp["scans"][0]:
+                    if it["t"] == "cv" and it["acc"] in (ACC["POS_X"], ACC["POS_Y"]):
+                        slots.append((it, "value"))
+                for it in sp["items"] + sp["tail"]:
+                    if it["t"] == "cv" and it["acc"] == ACC["TIC"]:
+                        slots.append((it, "value"))
+                for a in sp["arrays"]:
+                    for it in a["items"]:
+                        if it["t"] == "cv" and it["acc"] in READ_ARRAY:
+                            slots.append((it, "value"))
+        elif kind == "ref":
+            for sp in doc["spectra"]:
+                for items in [sp["items"], sp["scanlist"], sp["tail"]] + sp["scans"] + [a["items"] for a in sp["arrays"]]:
+                    slots += [(it, "ref") for it in items if it["t"] == "ref"]
+        elif kind == "group-id":
+            slots = [(g, "id") for g in doc["groups"]]
+        else:
+            raise core.InternalError("bad entity kind %r" % (kind,))
+        slots = [(o, k) for o, k in slots if o[k]]
+        if not slots:
+            return doc, None
+        o, k = slots[ent["pick"] % len(slots)]
+        text = o[k]
+        i = (ent["pick"] // 101) % len(text)
+        c = ord(text[i])
+        r = {"dec": "&#%d;" % c, "hex": "&#x%x;" % c, "dec0": "&#%04d;" % c}[ent["form"]]
+        o[k] = text[:i] + r + text[i + 1:]
+        return doc, "entity:" + kind
+
     def materialise(self, case):
-        """the concrete document: array items get their real offsets when the case carries binary data"""
+        """the concrete document: array items get their real offsets when the case carries binary data; then the non-ASCII
+        names and the character reference of the hypothesis-excluded classes.  Returns (doc, ibd, entity feature or None)"""
         doc = {k: v for k, v in case["doc"].items() if k != "spectra"}
         ibd, metas = b"\x00" * 16, None
         if case["data"] is not None:
@@ -297,22 +467,94 @@ class C17(Prop):
                 arrays.append({"items": items})
             spectra.append({**s, "arrays": arrays})
         doc["spectra"] = spectra
-        return doc, ibd
+        if case.get("non_ascii") is not None and UTF8_LOCALE:
+            doc = self.with_non_ascii(doc, case["non_ascii"])
+        elif not UTF8_LOCALE and has_non_ascii(doc):        # a replayed case under another locale: keep it decodable
+            doc = copy.deepcopy(doc)
+            for items in self.item_lists(doc):
+                for it in items:
+                    if "name" in it:
+                        it["name"] = it["name"].encode("ascii", "replace").decode("ascii")
+        entity = None
+        if case.get("entity") is not None:
+            doc, entity = self.with_entity(doc, case["entity"])
+        return doc, ibd, entity
+
+    def bin_tables(self, case, doc, ibd):
+        """the conversions `Bin` of the model as tables: text -> int()/float() value, (group id, offset, length) -> the numbers
+        stored there in the group's declared type.  None when the exact image comparison does not apply (no binary data, a
+        non-finite TIC, non-integer intensities / non-dyadic m/z, a text that does not convert)"""
+        if case["data"] is None:
+            return None
+        for sp in case["data"]:
+            if any(v != int(v) or abs(v) > 2 ** 16 for v in sp["it"]) or any(v * 64 != int(v * 64) or not 0 < v < 2 ** 12 for v in sp["mz"]) \
+                    or len(sp["mz"]) > 64:
+                return None
+        ints, floats, reads = {}, {}, {}
+        try:
+            dtypes = {}
+            for g in doc["groups"]:
+                types = [it["acc"] for it in g["items"] if it["t"] == "cv" and it["acc"] in BIN_TYPES]
+                if types:
+                    dtypes.setdefault(g["id"], np.dtype(DTYPE_NAME[types[0]]))
+            for st in doc["settings"]:
+                for it in st["items"]:
+                    if it["t"] == "cv" and it["acc"] in (ACC["SIZE_X"], ACC["SIZE_Y"]) and it["value"]:
+                        ints[it["value"]] = int(it["value"])
+            for sp in doc["spectra"]:
+                for sc in sp["scans"]:
+                    for it in sc:
+                        if it["t"] == "cv" and it["acc"] in (ACC["POS_X"], ACC["POS_Y"]) and it["value"]:
+                            ints[it["value"]] = int(it["value"])
+                for it in sp["items"] + sp["tail"]:
+                    if it["t"] == "cv" and it["acc"] == ACC["TIC"] and it["value"]:
+                        f = float(it["value"])
+                        if not math.isfinite(f):
+                            return None
+                        floats[it["value"]] = f
+                for a in sp["arrays"]:
+                    refs = [it["ref"] for it in a["items"] if it["t"] == "ref"]
+                    offs = [it["value"] for it in a["items"] if it["t"] == "cv" and it["acc"] == ACC["OFFSET"]]
+                    lens = [it["value"] for it in a["items"] if it["t"] == "cv" and it["acc"] == ACC["ENCODED_LENGTH"]]
+                    if len(refs) == 1 and len(offs) == 1 and len(lens) == 1 and refs[0] in dtypes and refs[0] in ("mzArray", "intensities"):
+                        o, n = int(offs[0]), int(lens[0])
+                        if 0 <= o and o + n <= len(ibd) and n % dtypes[refs[0]].itemsize == 0:
+                            vals = np.frombuffer(ibd[o:o + n], dtype=dtypes[refs[0]])
+                            if not np.isfinite(vals.astype(np.float64)).all():
+                                return None
+                            reads[(refs[0], offs[0], lens[0])] = [core.rat(float(v)) for v in vals]
+        except ValueError:
+            return None
+        if any(v < 0 for v in ints.values()):
+            return None
+        return {"ints": [{"text": t, "value": v} for t, v in sorted(ints.items())],
+                "floats": [{"text": t, "value": core.rat(v)} for t, v in sorted(floats.items())],
+                "reads": [{"id": k[0], "offset": k[1], "length": k[2], "data": v} for k, v in sorted(reads.items())],
+                "masses": [core.rat(m) for m in MASSES], "width_mz": core.rat(MASS_WIDTH)}
 
     def evaluate(self, case, ctx):
         from pewlib.io import imzml
 
-        doc, ibd = self.materialise(case)
+        doc, ibd, entity = self.materialise(case)
         d = ctx.tmpdir()
         path = gen_imzml.write_pair(d, doc, ibd)
         ends = gen_imzml.line_end_positions(doc)
         lens = [b - a for a, b in zip([0] + ends[:-1], ends)]
         nspec = len(doc["spectra"])
         abort = case["abort"]
+        if abort is not None and not 0 <= abort < nspec:
+            abort = None
 
-        rep = ctx.driver.call("c17.parse", doc=doc, lens=lens, cls="any", abort_call=abort)
-        if not rep["layout"]:
+        rep = ctx.driver.call("c17.parse", doc=doc, lens=lens, cls="any", abort_call=abort,
+                              bin=None if entity is not None else self.bin_tables(case, doc, ibd))
+        in_layout = bool(rep["layout"])
+        if not in_layout and not (entity is not None and rep["layout_core_decoded"] and not rep["text_ok"]):
             raise core.InternalError("generated document is outside the layout predicate")
+        # tokenisation contract: the lines the model names as the places of the callback are the <spectrumList>/<spectrum> lines
+        kinds = render_kinds(doc)
+        for k, li in enumerate(rep["call_lines"]):
+            if not kinds[li].startswith("<spectrumList " if k == 0 else "<spectrum "):
+                raise core.InternalError("line %d of the text is not the line the model invokes callback %d on" % (li, k))
 
         def parse(fast):
             try:
@@ -327,18 +569,7 @@ class C17(Prop):
         cx = canon_exc(xml) if isinstance(xml, Exception) else canon_imz(xml)
         impl = {"fast": cf, "xml": cx}
 
-        # images through both models (only when the case carries real binary data)
-        if case["data"] is not None and not isinstance(fast, Exception) and not isinstance(xml, Exception):
-            def images(m):
-                try:
-                    return {"tic": img_tokens(m.extract_tic()), "ext": img_tokens(m.extract_masses([100.0, 125.0], mass_width_mz=16.0))}
-                except Exception as e:
-                    return canon_exc(e)
-            impl["images_equal"] = images(fast) == images(xml)
-        else:
-            impl["images_equal"] = True
-
-        # progress callback
+        # progress callback: the positions it receives, False at invocation `abort`
         calls = []
 
         def cb(pos):
@@ -350,28 +581,70 @@ class C17(Prop):
             cres = canon_imz(r)
         except Exception as e:
             cres = canon_exc(e)
-        expect_calls = nspec if abort is None else abort + 1
-        impl["callback"] = {"result": cres, "count": len(calls), "non_decreasing": calls == sorted(calls)}
-
-        want = canon_model(rep["xml"])
-        spec = {"fast": want, "xml": want, "images_equal": True,
-                "callback": {"result": want if abort is None else {"raises": "Warning"}, "count": expect_calls, "non_decreasing": True}}
-        mcalls = rep["calls"]
-        model = {"fast": canon_model(rep["fast_free"]), "xml": want, "images_equal": True,
-                 "callback": {"result": canon_model(rep["fast"]), "count": len(mcalls), "non_decreasing": mcalls == sorted(mcalls)}}
+        impl["callback"] = {"result": cres, "positions": calls}
 
         feats = self.features(case, doc, nspec)
+        if entity is not None:
+            feats.add(entity)
         if nspec >= LARGE_MIN:
             feats.add("large-document")
             feats.add("large-document:" + next(f for f in feats if f.startswith("callback:")))
+            if doc["trail"].endswith("\r"):
+                feats.add("large-document:crlf")
             # a whole <spectrum> block is shorter than 1/1024 of the file (progress finer than 0.1 % per spectrum)
-            ln = render_kinds(doc)
-            starts = [i for i, t in enumerate(ln) if t.startswith("<spectrum ")]
-            closes = [i for i, t in enumerate(ln) if t == "</spectrum>"]
+            starts = [i for i, t in enumerate(kinds) if t.startswith("<spectrum ")]
+            closes = [i for i, t in enumerate(kinds) if t == "</spectrum>"]
             if min(ends[c] - ends[o - 1] for o, c in zip(starts, closes)) * 1024 < ends[-1]:
                 feats.add("large-document:spectrum-block<size/1024")
-        feats.add("callback-positions-" + ("exact" if calls == mcalls else "differ"))
-        return outcome(impl, model, spec, hyp=bool(rep["layout"]), features=feats)
+        if ends[-1] > 65536:
+            feats.add("file>64KiB" + (":crlf" if doc["trail"].endswith("\r") else ""))
+        elif ends[-1] > 8192:
+            feats.add("file>8KiB" + (":crlf" if doc["trail"].endswith("\r") else ""))
+
+        want = canon_model(rep["xml"])
+        if not in_layout:
+            # hypothesis-excluded (a character reference in a read text): impl against the model only.  The fast parser sees the
+            # raw text (`fastParse (render d)`), ElementTree the decoded document (`xmlView (xmlDoc d)`)
+            free = rep["fast_free"]
+            fail = first_conversion_failure(free["ok"]) if "ok" in free else None
+            mfast = canon_model(free)
+            if fail is not None and (abort is None or fail < abort):
+                mcb = {"result": {"raises": "ValueError"}, "positions": rep["calls_free"][:fail + 1]}
+            else:
+                mcb = {"result": canon_model(rep["fast"]), "positions": rep["calls"]}
+            model = {"fast": mfast, "xml": want, "callback": mcb}
+            return outcome(impl, model, model, hyp=False, spec_ok=True, features=feats)
+
+        # images through both objects: fast == XML always; against the model's image functions when the tables apply
+        if case["data"] is not None and not isinstance(fast, Exception) and not isinstance(xml, Exception):
+            def images(m):
+                try:
+                    return {"tic": img_tokens(m.extract_tic()), "ext": img_tokens(m.extract_masses(MASSES, mass_width_mz=MASS_WIDTH))}
+                except Exception as e:
+                    return canon_exc(e)
+            impl["images_equal"] = images(fast) == images(xml)
+        else:
+            impl["images_equal"] = True
+        spec = {"fast": want, "xml": want, "images_equal": True,
+                "callback": {"result": want if abort is None else {"raises": "Warning"}, "positions": rep["spec_calls"]}}
+        model = {"fast": canon_model(rep["fast_free"]), "xml": want, "images_equal": True,
+                 "callback": {"result": canon_model(rep["fast"]), "positions": rep["calls"]}}
+        im = rep["images"]
+        if im is not None and im["xml"] is not None:
+            def exact(m):
+                if isinstance(m, Exception):
+                    return canon_exc(m)
+                try:
+                    return exact_images(m)
+                except Exception as e:
+                    return canon_exc(e)
+            impl["images"] = {"fast": exact(fast), "xml": exact(xml)}
+            spec["images"] = {"fast": im["xml"], "xml": im["xml"]}
+            model["images"] = {"fast": im["fast"], "xml": im["xml"]}
+            feats.add("images-exact")
+            if any(v is None for row in im["xml"]["tic"] for v in row):
+                feats.add("images-exact:empty-pixel")
+        return outcome(impl, model, spec, hyp=True, features=feats)
 
     def features(self, case, doc, nspec):
         f = {"spectra:%s" % ("1" if nspec == 1 else "2" if nspec == 2 else "many" if nspec < LARGE_MIN else "1000+"),
@@ -392,7 +665,7 @@ class C17(Prop):
             f.add("settings-before-groups")
         if len(doc["groups"]) > 2:
             f.add("extra-groups")
-        if doc["groups"][0]["id"] not in ("mzArray", "intensities") or [g["id"] for g in doc["groups"] if g["id"] in ("mzArray", "intensities")][0] == "intensities":
+        if doc["groups"][0]["id"] not in ("mzArray", "intensities") or ([g["id"] for g in doc["groups"] if g["id"] in ("mzArray", "intensities")] + [""])[0] == "intensities":
             f.add("groups-reordered")
         if any(len(s["scans"]) > 1 for s in doc["spectra"]):
             f.add("several-scans")
@@ -400,7 +673,8 @@ class C17(Prop):
             f.add("extra-array")
         if any(it["t"] == "cv" and it["acc"] in ALL_READ for k in ("pre", "mid1", "mid2", "post") for sct in doc[k] for it in sct["items"]):
             f.add("read-accession-in-noise-section")
-        pos = [tuple(int(it["value"]) for it in s["scans"][0] if it["t"] == "cv" and it["acc"] in (ACC["POS_X"], ACC["POS_Y"])) for s in doc["spectra"]]
+        pos = [tuple(it["value"] for it in s["scans"][0] if it["t"] == "cv" and it["acc"] in (ACC["POS_X"], ACC["POS_Y"])) for s in doc["spectra"]]
+        pos = [tuple(int(v) for v in p) for p in pos if all(v.isdigit() for v in p)]      # (an entity case has one text that is not a number)
         if len(set(pos)) < len(pos):
             f.add("repeated-position")
         if any(max(p) >= 10 ** 12 for p in pos):
@@ -408,7 +682,10 @@ class C17(Prop):
         if not doc["decl"]:
             f.add("no-xml-declaration")
         gt = {g["id"]: [it["acc"] for it in g["items"] if it["t"] == "cv" and it["acc"] in BIN_TYPES] for g in doc["groups"]}
-        f.add("types:%s/%s" % (DTYPE_NAME[gt["mzArray"][0]], DTYPE_NAME[gt["intensities"][0]]))
+        if "mzArray" in gt and "intensities" in gt:
+            f.add("types:%s/%s" % (DTYPE_NAME[gt["mzArray"][0]], DTYPE_NAME[gt["intensities"][0]]))
+        if has_non_ascii(doc):
+            f.add("non-ascii-text")
         ab = case["abort"]
         f.add("callback:never-false" if ab is None else "callback:false-first" if ab == 0 else
               "callback:false-last" if ab == nspec - 1 else "callback:false-middle")
@@ -418,6 +695,9 @@ class C17(Prop):
     def shrink(self, case):
         doc = case["doc"]
         sp = doc["spectra"]
+        for k in ("entity", "non_ascii"):
+            if case.get(k) is not None:
+                yield {kk: v for kk, v in case.items() if kk != k}
         if len(sp) > 16:     # large documents: remove runs of spectra (halves, quarters, ... sixteenths) instead of single ones
             n = len(sp)
             for parts in (2, 4, 8, 16):
